@@ -181,7 +181,6 @@ func (p *Processor) ChargingDataCreate(
 	}
 	// never leave the subscriber locked, whatever happens below
 	defer unlock()
-	ue.NotifyUri = chargingData.NotifyUri
 
 	consumerId := chargingData.NfConsumerIdentification.NFName
 	if !chargingData.OneTimeEvent {
@@ -219,6 +218,8 @@ func (p *Processor) ChargingDataCreate(
 		}
 	}
 
+	// the create is accepted: from now on the subscriber's consumer is notified at the address it gave
+	ue.NotifyUri = chargingData.NotifyUri
 	if !chargingData.OneTimeEvent {
 		// only a session can be addressed later on: an event opens none, its (empty) reference designates nothing
 		ue.Cdr[chargingSessionId] = cdr
